@@ -3,7 +3,7 @@ From Coq Require Import List Arith.
 Import ListNotations.
 From Exmex.Model Require Import Base EvalBinary Lexer Flat Deep Convert.
 From Exmex.Spec Require Import RefSem.
-From Exmex.Proofs Require Import DeepSem DeepSubs C11Main DeepParse C03Main DeepOps Unparse UnparseParsed UokOps ParseAny.
+From Exmex.Proofs Require Import DeepSem DeepSubs C11Main DeepParse C03Main DeepOps Unparse UnparseParsed UokOps ParseAny Printable.
 Open Scope nat_scope.
 
 (* `_partial`: a flat expression obtained by parsing prints exactly the text it was parsed from (for every text,
@@ -109,6 +109,39 @@ Theorem C12_every_parsed_expression_prints_and_parses_back :
     exists v v', eval_deep C e vals = Ok v /\ eval_deep C e' vals = Ok v' /\ R v' v.
 Proof. exact @parsed_any_round_trip. Qed.
 
+(* 4c. DERIVED expressions.  `printable e` (Proofs/Printable.v): index-consistent with its sorted variable list, unary
+   stacks of unary operators, and the listed variables are exactly the occurring ones.  Parsed expressions are printable;
+   operator application by name and substitution (with printable replacements) keep it; every printable expression prints
+   the text of its tokens, and parsing these tokens gives a printable expression with the same variable list and the same
+   value at every assignment.  So expressions derived by any finite history of operator applications and substitutions
+   from parsed ones print and parse back.  (Derivatives and the neutral-element shortcuts of the overloaded operators
+   can list variables that no longer occur: known finding F6.) *)
+Theorem C12_parsed_expressions_are_printable :
+  forall (D : Type) (C : carrier D) (tb : optable) (ts : list (token D)) (e : deepex D),
+  parse_deep_tokens C tb ts = Ok e -> printable tb e.
+Proof. exact @parsed_printable. Qed.
+Theorem C12_operator_application_and_substitution_keep_printable :
+  forall (D : Type) (C : carrier D) (tb : optable),
+  (forall (a b r : deepex D) (name : str), printable tb a -> printable tb b -> operate_bin C tb a b name = Ok r -> printable tb r) /\
+  (forall (a r : deepex D) (name : str), printable tb a -> operate_unary C tb a name = Ok r -> printable tb r) /\
+  (forall (sub : str -> option (deepex D)), (forall x r, sub x = Some r -> printable tb r) ->
+     forall e e' : deepex D, printable tb e -> subs C sub e = Ok e' -> printable tb e').
+Proof.
+  intros D C tb. split; [exact (operate_bin_printable C tb)|]. split; [exact (operate_unary_printable C tb)|exact (subs_printable C tb)].
+Qed.
+Theorem C12_printable_expressions_print_and_parse_back :
+  forall (D : Type) (C : carrier D) (tb : optable) (R : D -> D -> Prop),
+  (forall a, R a a) -> (forall a b, R a b -> R b a) -> (forall a b c, R a b -> R b c -> R a c) ->
+  (forall k a a' b b', R a a' -> R b b' -> R (binf C k a b) (binf C k a' b')) ->
+  (forall k a a', R a a' -> R (unf C k a) (unf C k a')) ->
+  (forall o, comm_of tb o = true -> forall a b c, R (binf C o (binf C o a b) c) (binf C o a (binf C o b c))) ->
+  forall e : deepex D, printable tb e ->
+  unparse C tb e = Some (render C tb (utoks e)) /\
+  exists e', parse_deep_tokens C tb (utoks e) = Ok e' /\ dvars e' = dvars e /\ printable tb e' /\
+    forall vals, length vals = length (dvars e) ->
+    exists v v', eval_deep C e vals = Ok v /\ eval_deep C e' vals = Ok v' /\ R v' v.
+Proof. exact @printable_round_trip. Qed.
+
 (* 5. a flat expression made from a deep one prints what the deep one prints *)
 Theorem C12_flat_from_deep_prints_the_deep_text :
   forall (D : Type) (C : carrier D) (tb : optable) (fb : bool) (e : deepex D) (fx : flatex D),
@@ -125,5 +158,8 @@ Print Assumptions C12_printed_tokens_parse_back.
 Print Assumptions C12_printed_tokens_parse_back_to_the_same_expression.
 Print Assumptions C12_parsed_expressions_record_unary_operators.
 Print Assumptions C12_every_parsed_expression_prints_and_parses_back.
+Print Assumptions C12_parsed_expressions_are_printable.
+Print Assumptions C12_operator_application_and_substitution_keep_printable.
+Print Assumptions C12_printable_expressions_print_and_parse_back.
 Print Assumptions C12_flat_from_deep_prints_the_deep_text.
 Print Assumptions C12_derived_expressions_meet_the_premises.
